@@ -75,7 +75,19 @@ def generate(rep, name, c, timeout=3400, keep=None, workers=1):
 EXTENSION_OPS = {"Navigate"}
 
 
-def run_and_validate(rep, scripts, label, flavour="experiment", procs=16, batch_lines=6000, only_ops=None):
+def run_and_validate(rep, scripts, label, flavour="experiment", procs=16, batch_lines=6000, only_ops=None, chunk=1500):
+    """in chunks of scripts so that memory stays bounded; returns the traces / verdicts of the LAST chunk"""
+    out = ([], {})
+    stats_sum = {}
+    for c0 in range(0, max(1, len(scripts)), chunk):
+        part = scripts[c0:c0 + chunk]
+        if not part and c0 > 0:
+            break
+        out = _run_and_validate(rep, part, label, flavour, procs, batch_lines, only_ops)
+    return out
+
+
+def _run_and_validate(rep, scripts, label, flavour, procs, batch_lines, only_ops):
     traces = pipeline.exec_scripts("harness.topo_adapter", "run_script", scripts, [{"flavour": flavour}], procs=procs)
     cfg = tlc.write_cfg(TRACE_CFG, {"Flavour": flavour})
     try:
@@ -130,6 +142,15 @@ class RandomTopoOps:
         for _ in range(length):
             k = r.random()
             bad = r.random() < self.invalid
+            plain = [i for i in ifs if not i.rsplit("/", 1)[-1].startswith("sub") and i.count("/") >= 3]
+            if plain and r.random() < 0.03:
+                # renaming interfaces: two interfaces of one node may end up with one name (in different scopes)
+                i = r.choice(plain)
+                s.append({"op": "Rename", "p": i, "new": "data"})
+                j = i.rsplit("/", 1)[0] + "/data"
+                if j not in ifs:
+                    ifs[ifs.index(i)] = j
+                continue
             if k < 0.14 or not nodes:
                 name = r.choice(["n1", "n2", "n3", "n4"]) if not bad else r.choice(nodes + ["!x"] if nodes else ["!x"])
                 s.append({"op": "AddNode", "name": name, "site": r.choice(["S1", "S2", "S3"]), "ntype": r.choice(["VM", "VM", "Server"]),
